@@ -702,6 +702,53 @@ Proof.
 Qed.
 End TPassList.
 
+(* ---- the three transfer passes of eri_prim ---- *)
+Lemma nth_map_lt {A B} (f : A -> B) (l : list A) i dB dA :
+  i < length l -> nth i (map f l) dB = f (nth i l dA).
+Proof. intros H. rewrite (nth_indep _ dB (f dA)) by (now rewrite map_length). apply map_nth. Qed.
+
+Section TPass3.
+Variables (L Lc : nat) (coefx coefy coefz twoq r : F) (W : @cube F).
+
+Definition E3g (Wf : nat -> nat -> nat -> F) (cx cy cz ax ay az : nat) : F :=
+  ETf K coefz twoq r (fun az' =>
+    ETf K coefy twoq r (fun ay' =>
+      ETf K coefx twoq r (fun ax' => Wf ax' ay' az') cx ax) cy ay) cz az.
+
+Definition tpass3 : list (list (list (@cube F))) :=
+  map (fun tx => map (fun ty => tpass K L Lc 2 coefz twoq r ty) (tpass K L Lc 1 coefy twoq r tx))
+      (tpass K L Lc 0 coefx twoq r W).
+
+Theorem tpass3_entry cx cy cz ax ay az :
+  cx <= Lc -> cy <= Lc -> cz <= Lc -> ax + cx <= L -> ay + cy <= L -> az + cz <= L ->
+  cget K (nth cz (nth cy (nth cx tpass3 []) []) []) ax ay az
+  = E3g (fun x y z => cget K W x y z) cx cy cz ax ay az.
+Proof.
+  intros Hcx Hcy Hcz Hx Hy Hz. unfold tpass3, E3g.
+  rewrite (nth_map_lt (A:=@cube F) (B:=list (list (@cube F))) _ _ cx [] []) by (unfold tpass; rewrite iter2_length; lia).
+  rewrite (nth_map_lt (A:=@cube F) (B:=list (@cube F)) _ _ cy [] []) by (unfold tpass; rewrite iter2_length; lia).
+  rewrite (tpass_entry L Lc 2) by (cbn [idx]; lia). unfold line, idx; cbv beta iota.
+  apply (ETf_local K). intros jz Hjz. unfold line; cbv beta iota.
+  rewrite (tpass_entry L Lc 1) by (cbn [idx]; lia). unfold line, idx; cbv beta iota.
+  apply (ETf_local K). intros jy Hjy. unfold line; cbv beta iota.
+  rewrite (tpass_entry L Lc 0) by (cbn [idx]; lia). unfold line, idx; cbv beta iota.
+  reflexivity.
+Qed.
+
+(* if W agrees with a function Wf on x + y + z <= L, the entries with |a| + |c| <= L only see Wf *)
+Theorem tpass3_entry_region (Wf : nat -> nat -> nat -> F) cx cy cz ax ay az :
+  (forall x y z, x + y + z <= L -> cget K W x y z = Wf x y z) ->
+  cx <= Lc -> cy <= Lc -> cz <= Lc -> ax + ay + az + cx + cy + cz <= L ->
+  cget K (nth cz (nth cy (nth cx tpass3 []) []) []) ax ay az = E3g Wf cx cy cz ax ay az.
+Proof.
+  intros HW Hcx Hcy Hcz Hreg. rewrite tpass3_entry by lia. unfold E3g.
+  apply (ETf_local K). intros jz Hjz. cbv beta.
+  apply (ETf_local K). intros jy Hjy. cbv beta.
+  apply (ETf_local K). intros jx Hjx. cbv beta.
+  apply HW. lia.
+Qed.
+End TPass3.
+
 (* ---- horizontal transfer: entry (b; x y z) inside idx + b <= L ---- *)
 Section HIterList.
 Variables (L axis : nat) (ab : F) (t0 : @cube F).
@@ -770,5 +817,62 @@ Proof.
   destruct A as [[Ax Ay] Az], B as [[Bx By] Bz], C as [[Cx Cy] Cz], D as [[Dx Dy] Dz].
   reflexivity.
 Qed.
+
+(* ---- the primitive [a0|c0] table of the model, every entry of the region |a| + |c| <= L ---- *)
+Section EriPrim.
+Variables (Ax Ay Az Bx By Bz Cx Cy Cz Dx Dy Dz alpha beta gamma delta : F).
+Let A := (Ax, Ay, Az). Let B := (Bx, By, Bz). Let C := (Cx, Cy, Cz). Let D := (Dx, Dy, Dz).
+Let p := alpha + beta.
+Let q := gamma + delta.
+Let Px := (alpha * Ax + beta * Bx) / p. Let Py := (alpha * Ay + beta * By) / p.
+Let Pz := (alpha * Az + beta * Bz) / p.
+Let Qx := (gamma * Cx + delta * Dx) / q. Let Qy := (gamma * Cy + delta * Dy) / q.
+Let Qz := (gamma * Cz + delta * Dz) / q.
+(* beta_m = fapx (pref * F_m(T)) : the sequence the model feeds to the recursions *)
+Definition eri_base (m : nat) : F :=
+  fapx K (eri_pref A B C D alpha beta gamma delta * fboys K m (eri_T A B C D alpha beta gamma delta)).
+
+Theorem eri_prim_entry L Lc cx cy cz ax ay az :
+  cx <= Lc -> cy <= Lc -> cz <= Lc -> ax + ay + az + cx + cy + cz <= L ->
+  eget K (eri_prim K L Lc A B C D alpha beta gamma delta) cx cy cz ax ay az
+  = E3 K p q (Px - Ax) (Py - Ay) (Pz - Az) (Qx - Cx) (Qy - Cy) (Qz - Cz)
+      (fun ax ay az => V3 K p q (Px - Ax) (Py - Ay) (Pz - Az) (Px - Qx) (Py - Qy) (Pz - Qz)
+                          eri_base ax ay az 0)
+      cx cy cz ax ay az.
+Proof.
+  intros Hcx Hcy Hcz Hreg.
+  unfold eget, eri_prim, A, B, C, D. cbv zeta beta iota.
+  fold p q. fold Px Py Pz Qx Qy Qz.
+  match goal with |- cget K (nth cz (nth cy (nth cx (map _ (tpass K L Lc 0 ?cfx ?tq ?rr ?W)) []) []) []) _ _ _ = _ =>
+    change (cget K (nth cz (nth cy (nth cx
+              (tpass3 L Lc cfx ((Qy - Cy) + rr * (Py - Ay)) ((Qz - Cz) + rr * (Pz - Az)) tq rr W)
+              []) []) []) ax ay az = E3g (Qx - Cx + p / q * (Px - Ax)) (Qy - Cy + p / q * (Py - Ay))
+                (Qz - Cz + p / q * (Pz - Az)) ((1 + 1) * q) (p / q)
+                (fun ax ay az => V3g (Px - Ax) (Py - Ay) (Pz - Az) (Px - Qx) (Py - Qy) (Pz - Qz)
+                                   ((1 + 1) * p) (p * q / (p + q) / p) eri_base ax ay az 0)
+                cx cy cz ax ay az) end.
+  apply tpass3_entry_region; try assumption.
+  intros x y z Hxyz. now apply vrr2_cube_entry.
+Qed.
+
+(* The primitive integrals [a0|c0]^(0) of the model are Phi_0 (s^k |-> beta_k) of a polynomial in s
+   whose value at every s is the exact integrand: the product over the three axes of the bivariate
+   Gaussian moments with the covariance and the means of DESIGN.md 2.4. *)
+Theorem eri_prim_correct L Lc cx cy cz ax ay az :
+  p <> 0 -> q <> 0 -> p + q <> 0 -> 1 + 1 <> 0 ->
+  cx <= Lc -> cy <= Lc -> cz <= Lc -> ax + ay + az + cx + cy + cz <= L ->
+  let R := R3 K p q (Px - Ax) (Py - Ay) (Pz - Az) (Qx - Cx) (Qy - Cy) (Qz - Cz)
+              (Px - Qx) (Py - Qy) (Pz - Qz) cx cy cz ax ay az in
+  eget K (eri_prim K L Lc A B C D alpha beta gamma delta) cx cy cz ax ay az = Phi K eri_base 0 R
+  /\ forall s, peval K R s
+       = Ms K p q (Px - Ax) (Qx - Cx) (Px - Qx) s ax cx
+         * Ms K p q (Py - Ay) (Qy - Cy) (Py - Qy) s ay cy
+         * Ms K p q (Pz - Az) (Qz - Cz) (Pz - Qz) s az cz.
+Proof.
+  intros Hp Hq Hpq H2 Hcx Hcy Hcz Hreg R.
+  rewrite eri_prim_entry by assumption.
+  apply (eri_3d_correct K Kf p q _ _ _ _ _ _ _ _ _ Hp Hq Hpq H2).
+Qed.
+End EriPrim.
 
 End Lists.
